@@ -156,3 +156,25 @@ V('c19-compile-reuses-macros', 'C19', 'break', [(P, "    macros = {}\n    symbol
                                                 (P, "additional_opcodes = {}\n", "additional_opcodes = {}\n_shared_macros = {}\n")], 'C19.R2')
 V('c19-p-list-copy', 'C19', 'preserve', [(F, "        for plugin in [*_plugins[scope]]\n", "        for plugin in list(_plugins[scope])\n")])
 V('c19-p-reset-clear', 'C19', 'preserve', [(F, "    [\n        remove_plugin(scope, plugin)\n        for plugin in [*_plugins[scope]]\n    ]\n", "    _plugins[scope].clear()\n")])
+
+
+# ---------------------------------------------------------------------------- seeded changes
+def _load_seeded():
+    import json, os
+    root = os.path.join(os.path.dirname(os.path.dirname(os.path.abspath(__file__))), 'seeded')
+    if not os.path.isdir(root):
+        return
+    for sid in sorted(os.listdir(root)):
+        mp = os.path.join(root, sid, 'meta.json')
+        pp = os.path.join(root, sid, 'patch.diff')
+        if not (os.path.exists(mp) and os.path.exists(pp)):
+            continue
+        m = json.load(open(mp))
+        rule = m.get('expected_rule')
+        if not rule:
+            continue
+        prop = rule.split('.')[0]
+        VARIANTS.append({'id': 'seed-' + sid, 'prop': prop, 'kind': 'break', 'edits': [], 'patch': pp, 'expect': rule})
+
+
+_load_seeded()
